@@ -13,6 +13,14 @@ open Tins Tins.Wire
 /-- outcome classes of a parsing constructor: a packet, or `malformed_packet` — never a fault, never another exception -/
 def ParseSafe {α} (r : Out α) : Prop := (∃ a, r = .ok a) ∨ r = .throw .malformedPacket
 
+/-- what a parsing constructor hands to an inner class is strictly shorter than its own input (termination of the
+    chain parser) -/
+def InnerShorter (i : Inner) (b : Bytes) : Prop :=
+  match i with
+  | .none => True
+  | .raw r => r.length ≤ b.length
+  | .cls _ r _ => r.length < b.length
+
 theorem readU8_spec (c : Cursor) (h : c.Inv) :
     (∃ v c', c.readU8 = .ok (v, c') ∧ c'.Inv ∧ c'.size = c.size - 1 ∧ 1 ≤ c.size ∧ c'.mem = c.mem.drop 1
         ∧ v = Cursor.beNat (c.mem.take 1))
